@@ -360,6 +360,74 @@ Definition do_update (sch : schema) (t : tid) (st : dstate) (sets : list (nat * 
       end
   end.
 
+(* ------------------------------------------------------------------ UPDATE SET column = expression *)
+(* update.rs with a `deferred` assignment: never the one-pass path; rows collected in row-key order
+   (primary-key seek with fall-back, or scan), the expression evaluated on the row as it was, every
+   new row validated (NOT NULL, CHECK) while collecting; then, for a PRIMARY KEY / UNIQUE column,
+   row by row: a non-NULL new value must not equal the new value of an EARLIER row of the statement
+   and the index probe must not find it under another row key -- also when that other row is
+   updated by the same statement and gives the value up (`tol` = false is the code as it is;
+   `tol` = true, used by the class function only, forgives exactly those hits); no FOREIGN KEY
+   check; then the rows are rewritten and the index maintained in one pass (delete old, insert
+   new, row by row).
+   trips = (row id, old row, new row) of the selected rows *)
+Fixpoint e_trips (c : nat) (e : expr) (sel : list entry) : option (list (Z * row * row)) :=
+  match sel with
+  | [] => Some []
+  | en :: sel' =>
+      match eval e (e_row en), e_trips c e sel' with
+      | Some v, Some l => if val_fits v then Some ((e_id en, e_row en, set_nth c v (e_row en)) :: l) else None
+      | _, _ => None
+      end
+  end.
+Definition moves_away (c : nat) (all : list (Z * row * row)) (k : Z) (v : value) : bool :=
+  existsb (fun q => (fst (fst q) =? k) && negb (value_eqb (col_val c (snd q)) v)) all.
+Fixpoint uq_e_all (tol : bool) (ix : index) (c : nat) (all trips : list (Z * row * row)) (earlier : list value) : bool :=
+  match trips with
+  | [] => true
+  | p :: rest =>
+      let nv := col_val c (snd p) in
+      (is_null nv ||
+       (negb (vmem nv earlier) &&
+        match idx_find nv ix with
+        | Some k' => (k' =? fst (fst p)) || (tol && moves_away c all k' nv)
+        | None => true
+        end)) &&
+      uq_e_all tol ix c all rest (nv :: earlier)
+  end.
+Fixpoint idx_upd_at (ixs : list index) (k c : nat) (trips : list (Z * row * row)) : list index :=
+  match ixs with
+  | [] => []
+  | ix :: r => match k with O => idx_upd_pass c trips ix :: r | S k' => ix :: idx_upd_at r k' c trips end
+  end.
+Definition rewrite_rows_e (trips : list (Z * row * row)) (es : list entry) : list entry :=
+  map (fun en => match find (fun p => fst (fst p) =? e_id en) trips with
+                 | Some p => mkEnt (e_id en) false (snd p)
+                 | None => en
+                 end) es.
+Definition col_is_key (ds : list cdecl) (c : nat) : bool :=
+  match nth_error ds c with Some d => is_key d | None => false end.
+
+Definition do_update_e (sch : schema) (t : tid) (st : dstate) (c : nat) (e : expr) (w : option expr)
+  : option bool * dstate :=
+  let ds := cols_of sch t in
+  let ts := ts_of st t in
+  let sel := select_rows ds ts w in
+  match e_trips c e sel with
+  | None => (None, st)
+  | Some trips =>
+      match validate_all ds (map snd trips) with
+      | None => (None, st)
+      | Some false => (Some false, st)
+      | Some true =>
+          if negb (col_is_key ds c) then
+            (Some true, set_ts st t (mkT (rewrite_rows_e trips (ents ts)) (idxs ts)))
+          else if uq_e_all false (get_idx ts c) c trips trips [] then
+            (Some true, set_ts st t (mkT (rewrite_rows_e trips (ents ts)) (idx_upd_at (idxs ts) c c trips)))
+          else (Some false, st)
+      end
+  end.
+
 (* ------------------------------------------------------------------ one statement *)
 (* (None = outside the modelled fragment | Some accepted?, state after) *)
 Definition impl_step (sch : schema) (st : dstate) (s : stmt) : option bool * dstate :=
@@ -369,6 +437,8 @@ Definition impl_step (sch : schema) (st : dstate) (s : stmt) : option bool * dst
   | SUpd t sets w =>
       if sets_ok (length (cols_of sch t)) sets then do_update sch t st sets w else (None, st)
   | SDel t w => let '(ok, st') := do_delete sch t st w in (Some ok, st')
+  | SUpdE t c e w =>
+      if Nat.ltb c (length (cols_of sch t)) then do_update_e sch t st c e w else (None, st)
   end.
 
 Fixpoint impl_run (sch : schema) (st : dstate) (h : list stmt) : dstate :=
